@@ -174,7 +174,7 @@ class Rig(object):
     def __init__(self, choices=(), upper=(Top,), config=None, server=None, trace_lines=False, props=None, max_steps=300000,
                  profile_name="verif", write_config=None, profile=None, preempt=None, core_layers=None):
         install()
-        S.ALL_LOCKS[:] = []
+        # (the lock list is emptied when a rig is closed, not here: layer objects handed in through `upper` exist already)
         self.sched = S.Scheduler(choices, TRACE_FILES, trace_lines=trace_lines, max_steps=max_steps, preempt=preempt)
         S.SCHED = self.sched
         FakeDispatcher.rig = self
@@ -327,4 +327,5 @@ class Rig(object):
             self.sched.kill()
         finally:
             S.SCHED = None
+            S.ALL_LOCKS[:] = []
             FakeDispatcher.rig = None
